@@ -198,13 +198,20 @@ def builtin_policies():
 
 
 class Server(object):
-    def __init__(self, policies=None, template=None, keep=False):
+    def __init__(self, policies=None, template=None, keep=False, db=None):
         engine_capture()
         install_clock()
-        self.dir = tempfile.mkdtemp(prefix="vkmip-", dir=os.environ.get("VERIF_TMP", None))
-        self.db = os.path.join(self.dir, "kmip.db")
-        if template:
-            shutil.copyfile(template, self.db)
+        if db is not None:
+            # use an existing database file in place (e.g. the survivor of a crashed process)
+            self.dir = os.path.dirname(db)
+            self.db = db
+            self.own_dir = False
+        else:
+            self.dir = tempfile.mkdtemp(prefix="vkmip-", dir=os.environ.get("VERIF_TMP", None))
+            self.db = os.path.join(self.dir, "kmip.db")
+            self.own_dir = True
+            if template:
+                shutil.copyfile(template, self.db)
         self.policies = policies if policies is not None else builtin_policies()
         self.engine = None
         self.engines = []
@@ -240,7 +247,8 @@ class Server(object):
 
     def close(self):
         self.stop()
-        shutil.rmtree(self.dir, ignore_errors=True)
+        if self.own_dir:
+            shutil.rmtree(self.dir, ignore_errors=True)
 
     # --- request execution
     def process(self, req_bytes, identity=("alice", None), default_version=(1, 2)):
